@@ -81,7 +81,9 @@ fn workload(queues: Vec<(u32, u32)>, interleave: u8, full_fdt: bool, objs: Vec<W
         ops.push(TimedOp { when: When::AfterPkt(k), op: Op::Remove(i) });
         ops.push(TimedOp { when: When::AtUs(60_000), op: Op::Remove(i) });
     }
-    let mut poll = PollSpec::simple(1000);
+    // with paced objects the polling period does not divide the ticks (lateness must not accumulate)
+    let paced = objs.iter().any(|x| x.target_ms.is_some());
+    let mut poll = PollSpec::simple(if paced { [700u64, 1300, 1000, 2300][(seed % 4) as usize] } else { 1000 });
     poll.burst = burst;
     poll.max_polls = 20_000;
     poll.idle_polls_after_done = 1;
@@ -164,7 +166,8 @@ pub fn gen(idx: u64, rng: &mut Rng, _tier: Tier) -> Scn {
             prio: queues[rng.below(nq as u64) as usize].0,
             symbols,
             b,
-            transfers: if carousel.is_some() { 1 } else { *rng.pick(&[1u32, 1, 2]) },
+            // (a carousel object with several transfers sends them back to back, then waits for its delay)
+            transfers: *rng.pick(&[1u32, 1, 2]),
             after: if rng.chance(0.35) { Some(rng.range(1, 40)) } else { None },
             start_us: if timed && rng.chance(0.4) { Some(rng.range(0, 12) * 1000 + 500) } else { None },
             carousel,
@@ -230,6 +233,23 @@ pub fn oracle(scn: &SenderScn, ctx: &Ctx, trace: &SenderTrace) {
                 let until = t0.pkts.first().map(|p| trace.pkts[*p].seq).unwrap_or(u64::MAX).min(removed);
                 ready.push(Ready { obj: i, prio: o.prio, from: t0.start_seq, until });
             }
+            // ... and again whenever its next packet is DUE: packet k of a transfer is due at start + k * tick
+            // (tick = target / number of source packets); from the first poll strictly after that instant until the
+            // packet is emitted the object is not waiting for a pacing tick
+            if let Some(TargetSpec::DurationMs(d)) = &o.target {
+                let nb = ((o.len as u64 + 3) / 4).max(1); // E = 4 in these workloads, cenc null
+                for t in mine.iter() {
+                    for (k, p) in t.pkts.iter().enumerate().skip(1) {
+                        let due = t.start_us + (k as u128 * (*d as u128 * 1000) / nb as u128) as u64;
+                        if let Some(poll) = trace.polls.iter().find(|q| q.t_us > due + 1 && q.seq_begin > t.start_seq) {
+                            let emitted = trace.pkts[*p].seq;
+                            if poll.seq_begin < emitted {
+                                ready.push(Ready { obj: i, prio: o.prio, from: poll.seq_begin, until: emitted.min(removed) });
+                            }
+                        }
+                    }
+                }
+            }
             continue;
         }
         if scn.objects.iter().any(|x| x.prio == o.prio && x.target.is_some()) {
@@ -244,12 +264,23 @@ pub fn oracle(scn: &SenderScn, ctx: &Ctx, trace: &SenderTrace) {
         if o.carousel.is_some() {
             // definitely ready: until the last packet of the first transfer, then during each later transfer
             // (between two transfers it waits for its carousel delay)
-            let until = mine.first().and_then(|t| last_pkt_seq(t)).unwrap_or(u64::MAX).min(removed);
-            ready.push(Ready { obj: i, prio: o.prio, from, until });
-            first_ready.push(Ready { obj: i, prio: o.prio, from, until });
-            for t in mine.iter().skip(1) {
-                let until = last_pkt_seq(t).unwrap_or(t.start_seq).min(removed);
-                ready.push(Ready { obj: i, prio: o.prio, from: t.start_seq, until });
+            // bursts of max_transfer_count transfers: ready from the start of a burst to the last packet of its last
+            // transfer (inside a burst the next transfer follows at once)
+            let step = o.max_transfer_count.max(1) as usize;
+            if mine.is_empty() {
+                ready.push(Ready { obj: i, prio: o.prio, from, until: removed });
+                first_ready.push(Ready { obj: i, prio: o.prio, from, until: removed });
+            }
+            for (c, burst) in mine.chunks(step).enumerate() {
+                let f = if c == 0 { from } else { burst[0].start_seq };
+                let last = burst.last().unwrap();
+                // an incomplete burst at the end of the run (removed, or the run ended): until its last packet
+                let until = last_pkt_seq(last).unwrap_or(last.start_seq).min(removed);
+                ready.push(Ready { obj: i, prio: o.prio, from: f, until });
+                if c == 0 {
+                    let u0 = last_pkt_seq(burst[0]).unwrap_or(u64::MAX).min(removed);
+                    first_ready.push(Ready { obj: i, prio: o.prio, from, until: u0 });
+                }
             }
             continue;
         }
